@@ -357,7 +357,10 @@ def ob_block(blocks_mod, name, index):
         # look for a small concrete input on which the REAL block text violates its contract (bounded-instance model search + native replay, vlib/vbounded.py)
         from vlib import vbounded as VBD
 
-        args, msg = VBD.search(blocks_mod, name, ob.name)
+        try:
+            args, msg = VBD.search(blocks_mod, name, ob.name)
+        except Exception as ex:  # noqa: the search is best effort; without it the obligation stays undecided / refuted-without-input
+            args, msg = None, "bounded-instance search failed: %s: %s" % (type(ex).__name__, ex)
         if args is not None:
             return violated("block contract of %s: %s not established (%s) and the real block violates its contract on a small input: %s" % (name, ob.name, verdict, msg),
                             witness=args, backend=backend + "+z3(bounded instance)",
